@@ -104,7 +104,9 @@ impl Socket<Blocking> {
 use super::Nonblocking;
 impl Socket<Nonblocking> {
     pub fn new(bind_to: &str) -> Result<Self> {
-        Socket::__new(bind_to, None, None)
+        let sk = Socket::__new(bind_to, None, None)?;
+        sk.sk.set_nonblocking(true).map_err(Error::from)?;
+        Ok(sk)
     }
 
     pub fn new_with_skbuf(
